@@ -150,3 +150,105 @@ func checkStable(c *ctx, prop, kind string, initial map[string][]uint32) {
 		}
 	}
 }
+
+// ---- first calls in a fresh process ----
+// An encoder (decoder) is ONE fixed function of its argument: what it returns for x must not depend
+// on how many calls the process has already made.  A child process (subcommand firstcalls) makes its
+// very first calls on a short list of off-grid arguments - between two table sample points, in the
+// steep part of the curves, where a directly evaluated transfer function and a table look-up differ -
+// then makes 200,000 further calls, then repeats the list; the parent also evaluates the list itself.
+
+func firstCallInputs() (enc []float32, dec []uint16) {
+	for i := 0; i < 160; i++ {
+		k := float32(3 + 19*i) // 3 .. 3024 of 65535: slope up to 12.92 (sRGB), 16 (ProPhoto), unbounded (Adobe)
+		enc = append(enc, (k+0.93)/65535, (k+0.07)/65535)
+	}
+	for i := 0; i < 40; i++ {
+		k := float32(1 + 12*i)
+		enc = append(enc, (k+0.93)/511, (k+0.46)/511, (k+0.07)/511)
+	}
+	enc = append(enc, 0, 1, -0.25, 1.75, 0.5, 0.999999, 1e-7)
+	for i := 0; i < 64; i++ {
+		dec = append(dec, uint16((i*1021+17)%65536))
+	}
+	return
+}
+
+func firstCallRound() []uint32 {
+	enc, dec := firstCallInputs()
+	var out []uint32
+	for _, s := range spaces[:3] {
+		for _, x := range enc {
+			out = append(out, uint32(s.to16(x)))
+		}
+		for _, x := range enc {
+			out = append(out, uint32(s.to8(x)))
+		}
+		for _, v := range dec {
+			out = append(out, math.Float32bits(s.from16(v)), math.Float32bits(s.from8(uint8(v>>8))))
+		}
+	}
+	return out
+}
+
+func firstCallsMain() {
+	first := firstCallRound()
+	for _, s := range spaces[:3] {
+		for i := 0; i < 70000; i++ {
+			x := float32(i%65536) / 65535
+			s.to16(x)
+			s.to8(x)
+			s.from16(uint16(i))
+		}
+	}
+	second := firstCallRound()
+	var buf bytes.Buffer
+	binary.Write(&buf, binary.LittleEndian, first)
+	binary.Write(&buf, binary.LittleEndian, second)
+	os.Stdout.Write(buf.Bytes())
+}
+
+func firstCallsCheck(c *ctx, prop string) {
+	enc, dec := firstCallInputs()
+	own := firstCallRound()
+	out, err := exec.Command(os.Args[0], "firstcalls").Output()
+	c.res.count("first-calls", prop, true)
+	if err != nil || len(out) != 8*len(own) {
+		c.res.fail(Failure{Class: prop + ":first-calls:process", Desc: "the fresh process making its first encoder/decoder calls failed", Got: fmt.Sprint(err, len(out)), Want: fmt.Sprint(8 * len(own), " bytes")})
+		return
+	}
+	first := make([]uint32, len(own))
+	second := make([]uint32, len(own))
+	binary.Read(bytes.NewReader(out[:4*len(own)]), binary.LittleEndian, first)
+	binary.Read(bytes.NewReader(out[4*len(own):]), binary.LittleEndian, second)
+	per := 2*len(enc) + 2*len(dec)
+	describe := func(i int) (string, interface{}) {
+		s := spaces[i/per]
+		j := i % per
+		switch {
+		case j < len(enc):
+			return s.name + ".To16Bit", enc[j]
+		case j < 2*len(enc):
+			return s.name + ".To8Bit", enc[j-len(enc)]
+		default:
+			j -= 2 * len(enc)
+			if j%2 == 0 {
+				return s.name + ".From16Bit", dec[j/2]
+			}
+			return s.name + ".From8Bit", uint8(dec[j/2] >> 8)
+		}
+	}
+	reported := map[string]bool{}
+	for i := range own {
+		if first[i] == second[i] && first[i] == own[i] {
+			continue
+		}
+		fn, arg := describe(i)
+		if reported[fn] {
+			continue
+		}
+		reported[fn] = true
+		c.res.fail(Failure{Class: prop + ":first-calls:" + fn, Desc: fmt.Sprintf("%s(%v) returns %d among the first calls of a fresh process, %d after 200,000 further calls and %d in this process: the result depends on the call history", fn, arg, first[i], second[i], own[i]),
+			Input: map[string]interface{}{"function": fn, "argument": arg, "history": "first calls of a fresh process, then 200,000 calls, then the same argument again"}, Got: fmt.Sprint(first[i]), Want: fmt.Sprint(second[i])})
+	}
+}
